@@ -62,8 +62,15 @@ SSH_RSA == <<115, 115, 104, 45, 114, 115, 97>>
 SSH_DSS == <<115, 115, 104, 45, 100, 115, 115>>
 SSH_ED25519 == <<115, 115, 104, 45, 101, 100, 50, 53, 53, 49, 57>>
 ECDSA_NAMES == {<<101, 99, 100, 115, 97, 45, 115, 104, 97, 50, 45, 110, 105, 115, 116, 112, 50, 53, 54>>, <<101, 99, 100, 115, 97, 45, 115, 104, 97, 50, 45, 110, 105, 115, 116, 112, 51, 56, 52>>, <<101, 99, 100, 115, 97, 45, 115, 104, 97, 50, 45, 110, 105, 115, 116, 112, 53, 50, 49>>}
+KeyConformant(kind, m) ==
+  CASE kind = "rsa_key"   -> m.alg = SSH_RSA
+    [] kind = "dss_key"   -> m.alg = SSH_DSS
+    [] kind = "eddsa_key" -> m.alg = SSH_ED25519 /\ Len(m.key) = 32
+    [] kind = "ecdsa_key" -> m.alg \in ECDSA_NAMES
+    [] OTHER -> TRUE
 Conformant(kind, m) ==
   CASE kind = "kexinit"   -> Len(m.cookie) = 16
+    [] kind = "dh_reply"  -> KeyConformant(m.key_kind, m.key)             \* the host key inside is one the RFCs define
     [] kind = "banner"    -> 4 + Len(m.proto) + 1 + Len(m.software) + (IF m.has_comment THEN 1 + Len(m.comment) ELSE 0) + 2 <= 255
                              /\ (\A i \in 1..Len(m.comment) : m.comment[i] \notin {10, 13})
                              /\ (\A i \in 1..Len(m.software) : m.software[i] \notin {10, 13, 32, 45})
